@@ -742,7 +742,9 @@ pub fn build(pl: &Plan) -> Model {
         let bounds = bounds_of(e.bounds);
         // next_to: another space (never itself when there are several)
         let mut next_to = None;
-        if bounds == BoundaryType::INTERIOR {
+        // other boundary kinds: one in eight keeps a stale reference to another space (what is left behind
+        // when a partition is re-declared as a facade; the model checker only asks that the id exists)
+        if bounds == BoundaryType::INTERIOR || e.next_to.map_or(false, |p| p % 8 == 3) {
             if let Some(p) = e.next_to {
                 let mut j = pick(p, ns);
                 if j == si && ns > 1 {
